@@ -691,7 +691,7 @@ def c07(tier):
                     out.append(f"{{ {tok} = {srcv}; }}")                              # write position
                     out.append(f"{{ {tok} = {srcv}; {_obs(let)} = {tok}; }}")        # read after write
     # explicitly numbered registers
-    for name in ["R0", "R1", "R3", "R10", "R13", "R29", "R31", "R32", "P0", "P1", "P2", "P3", "P4", "C0", "C1", "C9",
+    for name in ["R0", "R1", "R3", "R10", "R11", "R22", "C11", "R13", "R29", "R31", "R32", "P0", "P1", "P2", "P3", "P4", "C0", "C1", "C9",
                  "C13", "M0", "M1", "G0", "S0", "R1:0", "R3:2", "R31:30", "C1:0", "C3:2"]:
         for new in ("", "_NEW"):
             tok = name + new
